@@ -89,7 +89,7 @@ impl PhoneticSuggestion {
                     let key = &middle[..(middle.len() - suffix_key.len())];
                     if let Some(cache) = self.cache.get(key) {
                         for base in cache {
-                            let base_rmc = base.to_string().chars().last().unwrap(); // Right most character.
+                            let base_rmc = base.to_string().chars().last().unwrap_or_default(); // Right most character.
                             let suffix_lmc = suffix.chars().next().unwrap(); // Left most character.
                             let mut word = String::with_capacity(middle.len() * 3);
                             word.push_str(base.to_string());
@@ -265,7 +265,7 @@ impl PhoneticSuggestion {
                     let key = &string.word()[..len - test.len()];
 
                     if let Some(base) = selections.get(key) {
-                        let rmc = base.chars().last().unwrap();
+                        let rmc = base.chars().last().unwrap_or_default();
                         let suffix_lmc = suffix.chars().next().unwrap();
                         selected.push_str(base);
 
